@@ -23,7 +23,10 @@ EXPLANATION = (
     "dispatch (R0).  The labels callers attach - get_logic(f) and the set-logic command written by "
     "smtlibscript_from_formula(f) - are obtained by interpreting those functions on the same skeletons; the "
     "logic they name enables every feature, is non-linear when the term is and is not quantifier-free when the "
-    "skeleton has a quantifier (R5).")
+    "skeleton has a quantifier (R5).  The factory's one-shot shortcuts (is_sat, is_valid, is_unsat, get_model, "
+    "get_implicant, get_unsat_core) are interpreted over recording probe solvers that declare partly incomparable "
+    "logics: the logic a solver is created with enables every feature of every formula handed to it, also for "
+    "clause lists whose members have incomparable logics (R6).")
 NOT_DECIDED = ["order axioms on theories that are not the theory of any named logic (arbitrary flag valuations)"]
 
 
@@ -40,3 +43,5 @@ def run(ctx):
     c13_order.run(ctx)
     from . import c13_deep
     c13_deep.run(ctx)
+    from . import c13_factory
+    c13_factory.run(ctx)
